@@ -11,7 +11,7 @@ import sys
 VERIF = os.path.dirname(os.path.dirname(os.path.abspath(__file__)))
 SD = os.path.join(VERIF, "seeded")
 # outcome of the very first run of the checks against each seed, before any strengthening
-FIRST_MISSED = {"C15-4", "C16-3", "C16-4", "C14-3", "C14-4", "C03-4", "C03-5", "C02-5", "C02-6", "C10-5", "C02-3", "C08-4", "C10-4", "C04-3", "C09-3", "C11-4", "C12-4", "C02-2", "C03-1", "C05-1", "C06-1", "C06-2", "C08-1", "C08-2", "C10-1", "C11-2", "C15-1", "C18-1", "C19-1", "C19-2"}
+FIRST_MISSED = {"C13-3", "C13-4", "C17-4", "C19-3", "C15-4", "C16-3", "C16-4", "C14-3", "C14-4", "C03-4", "C03-5", "C02-5", "C02-6", "C10-5", "C02-3", "C08-4", "C10-4", "C04-3", "C09-3", "C11-4", "C12-4", "C02-2", "C03-1", "C05-1", "C06-1", "C06-2", "C08-1", "C08-2", "C10-1", "C11-2", "C15-1", "C18-1", "C19-1", "C19-2"}
 STRENGTHENED = {
     "C02-2": "new rule C02-e.upgrade-hands-over-write-buf (+ write-buf-effect)",
     "C03-1": "new rule C03-c.finished-kept-while-draining",
@@ -34,6 +34,11 @@ STRENGTHENED = {
     "C04-4": "caught by fail-closed anchors only (the Ready edge of poll_linger and its self-wake disappeared)",
     "C09-3": "new rule C09-f.configure-keeps-default",
     "C11-4": "C11-e.head-field strengthened from 'some write exists' to must-pass-through on every path to the hand-off",
+    "C13-3": "new rules C13-e.* (negotiate: chosen-from-accepted-item, zero-quality-filtered, identity-needs-acceptability)",
+    "C13-4": "new rule C13-d.decoder-restored",
+    "C17-4": "new rule C17-a.chunked-wins-over-length (and C01-b.decoder-from-decision now requires the not-chunked edge)",
+    "C19-3": "C19-c.slice-length-guarded extended to `str` indexing and to ranges `a..len-c`; entity.rs added to the analysed files",
+    "C19-4": "was caught by a fail-closed anchor of C17 only; new shared rule C17-d/C19-d.stream-flag-has-payload",
     "C15-4": "new rule C15-f.scan-resumes-at-next-byte",
     "C16-3": "new rules C16-b.checks-on-decoded and C16-b.returned-is-built",
     "C16-4": "new rule C16-c.precondition-before-not-modified",
